@@ -279,6 +279,16 @@ class SymClient(Client):
                         if fn.attr in c.methods:
                             m = c.methods[fn.attr]
                             return FuncRef(m.module.name, m.qualname)
+        if s is not None and isinstance(fn, (ast.Name, ast.Attribute)):
+            # a callable received as a value (``rsp_class()`` with rsp_class bound to a message class)
+            t = self.term(fn, s, heap_ext=False)
+            if t != ast.unparse(fn):
+                try:
+                    r0 = self.repo.resolve_expr(ast.parse(t, mode='eval').body, self.mod, self.cls)
+                    if isinstance(r0, (ClassRef, FuncRef)):
+                        return r0
+                except (NotConst, SyntaxError):
+                    pass
         ch = attr_chain(fn)
         if ch and len(ch) == 2 and ch[0] in ('self', 'cls') and self.cls is not None:
             m = self.cls.find_method(ch[1])
